@@ -24,7 +24,18 @@
 //! a third encoding is not generated (two suffice for a metamorphic pair). Columns whose distinct values
 //! overflow an 8-bit dictionary key are discarded (not representable) — rare.
 //!
-//! Sensitivity probes (tools/mutrun, quick tier): see the bottom of this header — filled in after probing.
+//! Sensitivity probes (tools/mutrun, `./check C12 quick`, patches in crates/vf-common/probes/):
+//! * c12-neg-zero-hash-one.diff — drop the −0.0 normalisation in `HashValue::hash_one` for floats:
+//!   VIOLATION after 3 375 cases ("rows 0 and 6 are equal key values [Struct([-0.0])] but hash differently").
+//! * c12-dict-null-value-with-null-keys.diff — dictionary scatter no longer skips NULL dictionary values when
+//!   the keys carry NULLs: VIOLATION after 32 cases (row hash differs between encodings A and B).
+//! * c12-view-inline-threshold.diff — view kernel treats strings up to 16 B as inline (hashes the view word,
+//!   i.e. buffer index and offset) : VIOLATION after 6 cases ("hello world!!" under two buffer layouts).
+//! * c12-view-buffer-index.diff — view kernel always reads data buffer 0: the debug build's unsafe-precondition
+//!   check aborts the process (exit 2 "ended abnormally"), i.e. noticed but not as a VIOLATION line; replaced by
+//!   the threshold probe above.
+//! Quick: 30 000 cases, 8 shards (3 s on an idle machine, ~35 s with all cores busy elsewhere); thorough: 2 000 000 cases, 16 shards,
+//! rows up to 100.
 use arrow::array::ArrayRef;
 use datafusion_common::ScalarValue;
 use datafusion_common::hash_utils::{QualityRandomState, RandomState, create_hashes, create_hashes_with_hasher, with_hashes, with_hashes_with_hasher};
@@ -134,7 +145,7 @@ impl Property for C12 {
             .boxed()
     }
     fn budget(&self, tier: Tier) -> Budget {
-        Budget::new(tier.pick(60_000, 4_000_000), tier.pick(8, 16)).min_nontrivial(tier.pick(5_000, 200_000))
+        Budget::new(tier.pick(30_000, 2_000_000), tier.pick(8, 16)).min_nontrivial(tier.pick(3_000, 100_000))
     }
     fn rule(&self) -> String {
         "1-4 key columns of generated Arrow types (nested to depth 2, dictionary / run-end wrapped), 0-40 rows from small value pools, each column rendered under two \
